@@ -37,6 +37,24 @@ theorem strncaseeq_full : ∀ (a b : List Nat) (n : Nat), a.length < n →
       rw [Bool.eq_iff_iff]
       simp
 
+theorem nat_beq_symm (x y : Nat) : (x == y) = (y == x) := by
+  rw [Bool.eq_iff_iff]; simp only [beq_iff_eq]; exact eq_comm
+
+theorem list_beq_symm (x y : List Nat) : (x == y) = (y == x) := by
+  rw [Bool.eq_iff_iff]; simp only [beq_iff_eq]; exact eq_comm
+
+theorem strncaseeq_comm : ∀ (a b : List Nat) (n : Nat), strncaseeq a b n = strncaseeq b a n
+  | _, _, 0 => by simp [strncaseeq]
+  | [], [], _ + 1 => rfl
+  | [], _ :: _, _ + 1 => rfl
+  | _ :: _, [], _ + 1 => rfl
+  | a :: as, b :: bs, n + 1 => by
+    simp only [strncaseeq, strncaseeq_comm as bs n, nat_beq_symm (toLower a) (toLower b)]
+
+theorem strncaseeq_full_right (a b : List Nat) (n : Nat) (h : b.length < n) :
+    strncaseeq a b n = (lowerAll a == lowerAll b) := by
+  rw [strncaseeq_comm, strncaseeq_full b a n h, list_beq_symm]
+
 /-- a lower-case name is its own lower-case form -/
 def isLowerName (s : List Nat) : Bool := s.all (fun c => !isUpper c)
 
